@@ -422,7 +422,20 @@ func (c *Ctx) finish() int {
 		"floors":              c.floors,
 	}
 	if len(c.samples) == 0 {
-		cov["samples"] = []any{}
+		// the check recorded no explicit samples: show the structural descriptions of a few evaluated cases instead
+		var shapes []string
+		for k := range c.distinct {
+			shapes = append(shapes, k)
+		}
+		sort.Strings(shapes)
+		fallback := []any{}
+		for i, k := range shapes {
+			if i >= 4 {
+				break
+			}
+			fallback = append(fallback, map[string]any{"case_shape": k})
+		}
+		cov["samples"] = fallback
 	}
 	for k, v := range c.counters {
 		cov[k] = v
